@@ -69,8 +69,15 @@ def stats_match(got, want: Dict[str, float]) -> str:
             if not (isinstance(g, float) and math.isnan(g)):
                 return f"{k} {g!r} != nan"
             continue
+        if isinstance(w, float) and math.isinf(w):
+            # (an overflowed tensor - exp of a large value - has infinite statistics: they must be the SAME infinity)
+            if not (isinstance(g, float) and g == w):
+                return f"{k} {g!r} != {w!r}"
+            continue
         # float32 reductions: the error of a mean is relative to the magnitude of the data, not to the (possibly ~0) mean itself
         slack = 1e-5 * want.get("abs_max", 0.0) if k in ("abs_mean", "mean_abs", "std") else 0.0
+        if not math.isfinite(slack):
+            slack = 0.0
         if not abs(g - w) <= 1e-4 * abs(w) + 1e-6 + slack:
             return f"{k} {g!r} != {w!r}"
     return ""
